@@ -63,6 +63,7 @@ type loopInfo struct {
 	backs   []*ssa.BasicBlock
 	spec    *LoopSpec
 	variant *Term
+	entrySt *State // state on loop entry, before the havoc (for entry(e) in invariants)
 }
 
 type retInfo struct {
@@ -208,20 +209,38 @@ func (fx *FnExec) fieldSort(si *structInfo, i int) Sort {
 
 // emb returns the reference of the sub-object / field i of object r.
 func (fx *FnExec) emb(r *Term, si *structInfo, i int) *Term {
+	fx.embAxioms()
+	k := IntLit(int64(fx.e.fieldID(si, i)))
+	return App("emb", SInt, r, k)
+}
+
+// embAxioms: field / element addresses are injective, negative and mutually distinct.
+func (fx *FnExec) embAxioms() {
+	if fx.c.trusted["addrax"] {
+		return
+	}
+	fx.c.trusted["addrax"] = true
 	fx.c.DeclareFun("emb", []Sort{SInt, SInt}, SInt)
 	fx.c.DeclareFun("embbase", []Sort{SInt}, SInt)
 	fx.c.DeclareFun("embfld", []Sort{SInt}, SInt)
-	k := IntLit(int64(fx.e.fieldID(si, i)))
-	t := App("emb", SInt, r, k)
-	key := "embax " + t.String()
-	if !fx.c.trusted[key] {
-		fx.c.trusted[key] = true
-		fx.c.defs = append(fx.c.defs,
-			Eq(App("embbase", SInt, t), r),
-			Eq(App("embfld", SInt, t), k),
-			Lt(t, IntLit(0)))
-	}
-	return t
+	fx.c.DeclareFun("eaddr", []Sort{SInt, SInt}, SInt)
+	fx.c.DeclareFun("eaddrbase", []Sort{SInt}, SInt)
+	fx.c.DeclareFun("eaddridx", []Sort{SInt}, SInt)
+	fx.c.DeclareFun("iseaddr", []Sort{SInt}, SBool)
+	rv, kv := Var("r!ea", SInt), Var("k!ea", SInt)
+	emb := App("emb", SInt, rv, kv)
+	fx.c.Axiom("field addresses are injective, negative and not element addresses", Forall([]*Term{rv, kv},
+		And(Eq(App("embbase", SInt, emb), rv), Eq(App("embfld", SInt, emb), kv), Lt(emb, IntLit(0)), Not(App("iseaddr", SBool, emb))), emb))
+	bv, iv := Var("b!ea", SInt), Var("i!ea", SInt)
+	app := App("eaddr", SInt, bv, iv)
+	fx.c.Axiom("element addresses are injective, negative and not field addresses", Forall([]*Term{bv, iv},
+		And(Eq(App("eaddrbase", SInt, app), bv), Eq(App("eaddridx", SInt, app), iv), Lt(app, IntLit(0)), App("iseaddr", SBool, app)), app))
+}
+
+// eaddr returns the address of element i of the backing array b.
+func (fx *FnExec) eaddr(b, i *Term) *Term {
+	fx.embAxioms()
+	return App("eaddr", SInt, b, i)
 }
 
 // readField reads field i of heap object r (struct-typed fields are assembled recursively).
@@ -291,15 +310,17 @@ func (fx *FnExec) elemAt(h, s, i *Term) *Term {
 		return Select(Select(h, SlcBase(s)), Add(SlcOff(s), i))
 	}
 	es := h.S.elemSort().elemSort()
+	as := h.S.elemSort()
 	name := "elem_" + sanitize(string(es))
 	if !fx.c.HasDecl(name) {
-		fx.c.DeclareFun(name, []Sort{h.S, SSlc, SInt}, es)
-		hv, sv, iv := Var("h!e", h.S), Var("s!e", SSlc), Var("i!e", SInt)
-		app := App(name, es, hv, sv, iv)
-		fx.c.Axiom("definition of "+name, Forall([]*Term{hv, sv, iv},
-			Eq(app, App("select", es, App("select", h.S.elemSort(), hv, App("sbase", SInt, sv)), App("+", SInt, App("soffs", SInt, sv), iv))), app))
+		// elem(a, s, i): element i of slice s whose backing array currently holds a
+		fx.c.DeclareFun(name, []Sort{as, SSlc, SInt}, es)
+		av, sv, iv := Var("a!e", as), Var("s!e", SSlc), Var("i!e", SInt)
+		app := App(name, es, av, sv, iv)
+		fx.c.Axiom("definition of "+name, Forall([]*Term{av, sv, iv},
+			Eq(app, App("select", es, av, App("+", SInt, App("soffs", SInt, sv), iv))), app))
 	}
-	return App(name, es, h, s, i)
+	return App(name, es, Select(h, SlcBase(s)), s, i)
 }
 
 // ---------------------------------------------------------------------------
@@ -738,8 +759,9 @@ func (fx *FnExec) loopModSet(li *loopInfo) *modSet {
 				case *ssa.FieldAddr:
 					site = a.X
 				case *ssa.IndexAddr:
-					if _, ok := a.X.Type().Underlying().(*types.Slice); ok {
-						site = a.X
+					switch a.X.Type().Underlying().(type) {
+					case *types.Slice, *types.Pointer:
+						site = a.X // slice value, or pointer to a (heap) array such as a varargs array
 					}
 				}
 			case *ssa.MapUpdate:
@@ -1050,6 +1072,7 @@ func (fx *FnExec) loopHead(li *loopInfo, st *State) {
 	spec := fx.beh.Loops[li.ordinal]
 	li.spec = spec
 	st.splits = nil
+	li.entrySt = st.clone()
 	if spec == nil {
 		fx.fail("loop %d (%s) has no invariant for behaviour %q", li.ordinal, fx.pos(li.head.Instrs[0].Pos()), fx.behName)
 	}
@@ -1445,6 +1468,7 @@ func (fx *FnExec) doIndexAddr(st *State, x *ssa.IndexAddr) {
 		s := fx.val(st, x.X)
 		fx.oblig(st, "bounds", "index", x.Pos(), And(Le(IntLit(0), idx), Lt(idx, SlcLen(s))))
 		fx.lvals[x] = &LVal{kind: "elem", slc: s, idx: idx, ety: u.Elem(), ty: u.Elem()}
+		fx.vals[x] = fx.eaddr(SlcBase(s), Add(SlcOff(s), idx))
 	case *types.Pointer:
 		at := u.Elem().Underlying().(*types.Array)
 		base := fx.lvalOf(st, x.X)
